@@ -63,3 +63,13 @@ Definition c05_diag (c : c05case) : nat :=
        end.
 
 Definition c05_ok (c : c05case) : bool := Nat.eqb (c05_diag c) 0.
+
+(* The whole loaded tables (every compiled rule and terminal, whether or not it occurs in a
+   forest) against the model of the invert / None block of Lark.__init__: in particular every
+   RuleOptions object of a rule definition - alternatives with an absent [x] placeholder own a
+   copy - carries the loaded priority. *)
+Definition c05tables : Type := (pmode * list (option Z) * list (option Z) * list Z * list Z)%type.
+Definition c05_tables_ok (c : c05tables) : bool :=
+  let '(m, rps, rps_loaded, tps, tps_loaded) := c in
+  list_eqb optZ_eqb (map (load_rprio m) rps) rps_loaded
+  && list_eqb Z.eqb (map (load_tprio m) tps) tps_loaded.
